@@ -168,6 +168,7 @@ type CtxTimeline struct {
 
 type Mon struct {
 	stats    *Stats
+	c17      *c17Mon // set when the query differential is attached
 	run      *Run
 	reqs     map[string]*ReqLedger
 	ctxs     map[string]*CtxTimeline
